@@ -49,6 +49,7 @@ type depInfo struct {
 
 type wdTx struct {
 	raw, txid []byte
+	outsAbs   []Ev
 	pid       int64
 	blk       uint64
 	pos       int
@@ -900,6 +901,15 @@ func (g *bridgeGen) processTx(vc *voteCtx, st *project.BridgeState) (*brTx, erro
 		outs, outsAbs = outs[:len(outs)-1], outsAbs[:len(outsAbs)-1]
 	}
 	raw, txid := btc.Tx(r, outs, r.Intn(40))
+	again := false
+	if replace && rare(5) { // "replace" by a transaction that was already voted for this withdrawal batch
+		for _, o := range g.wtxs {
+			if o.pid == pid && o.outsAbs != nil {
+				raw, txid, outsAbs, again = o.raw, o.txid, o.outsAbs, true
+				break
+			}
+		}
+	}
 	size := int64(len(raw))
 	if minPrice > 1000 {
 		minPrice = 5
@@ -917,7 +927,7 @@ func (g *bridgeGen) processTx(vc *voteCtx, st *project.BridgeState) (*brTx, erro
 	if fee < 1 {
 		fee = 1
 	}
-	wt := &wdTx{raw: raw, txid: txid, pid: pid}
+	wt := &wdTx{raw: raw, txid: txid, pid: pid, outsAbs: outsAbs}
 	bad := rare(10)
 	f := Ev{"wf": true, "parseOk": true, "outs": outsAbs, "fee": fee, "size": size, "txid": project.H6(txid)}
 	var msg sdk.Msg
@@ -941,9 +951,11 @@ func (g *bridgeGen) processTx(vc *voteCtx, st *project.BridgeState) (*brTx, erro
 		msg = m
 	}
 	// the transaction may get mined later (whether or not the node accepted it)
-	ww := wt
-	g.addPending(raw, func(b *btcBlock, pos int) { ww.blk, ww.pos, ww.mined = b.h, pos, true })
-	g.wtxs = append(g.wtxs, wt)
+	if !again {
+		ww := wt
+		g.addPending(raw, func(b *btcBlock, pos int) { ww.blk, ww.pos, ww.mined = b.h, pos, true })
+		g.wtxs = append(g.wtxs, wt)
+	}
 	return &brTx{msg: msg, BEv: ev, BF: f}, nil
 }
 
